@@ -1048,8 +1048,10 @@ impl<Writer: Write> Mp4Writer<Writer> {
 
     fn compute_interleave_schedule(&self) -> Vec<(u64, TrackKind, usize)> {
         let mut schedule: Vec<(u64, TrackKind, usize)> = Vec::new();
+        // Video is scheduled on its decode time: samples are stored (and their chunk
+        // offsets assigned) in decode order, which is also sample-table order.
         for (idx, sample) in self.video_samples.iter().enumerate() {
-            schedule.push((sample.pts, TrackKind::Video, idx));
+            schedule.push((sample.dts, TrackKind::Video, idx));
         }
         for (idx, sample) in self.audio_samples.iter().enumerate() {
             schedule.push((sample.pts, TrackKind::Audio, idx));
